@@ -189,7 +189,9 @@ def run_history(spec, hist):
 
 def main():
     """Child interpreter: one JSON request per line -> one JSON answer per line."""
-    sys.path.insert(0, "/verif")
+    import os
+
+    sys.path.insert(0, os.path.dirname(os.path.dirname(os.path.abspath(__file__))))
     for line in sys.stdin:
         line = line.strip()
         if not line:
